@@ -142,6 +142,15 @@ def fuse(ctx, lexpr):
             bad = [p for p in ps2 if p.calls(step) or not (isinstance(p.ret, Adt) and p.ret.variant == 0)]
             if ps2 and not bad:
                 r.ok("%s: sets %r on every error and returns None without stepping once it is set" % (it_path, flag), f)
+                # the flag must live in the parser (reached through the iterator's reference), not in the iterator
+                # object itself: value_iter()/datum_iter() and <Parser as Iterator>::next create a fresh iterator per call
+                if len(flag.path) < 2:
+                    r.violation(it_path, "flag-in-iterator",
+                                "%s keeps its fused flag %r inside the iterator object; Parser::value_iter/datum_iter and "
+                                "<Parser as Iterator>::next build a new iterator on every call, so iteration through "
+                                "them is not fused and can yield the same error forever" % (it_path, flag), f.loc())
+                else:
+                    r.ok("%s: the flag %r lives in the parser and survives re-creating the iterator" % (it_path, flag), f)
                 continue
             r.violation(it_path, "flag-not-tested",
                         "%s stores %r on error but does not return None on entry when it is set" % (it_path, flag), f.loc())
